@@ -121,7 +121,9 @@ mut('C18', 'ok-load-fstat-directly', C, "            if not self._cache_is_valid
 mut('C18', 'ok-always-restore', C, "        if self._cache_is_valid(store_filename, filename):\n            return None\n\n        # Create", "        # Create", expect=0,
     note='always re-storing is wasteful but never serves stale data')
 mut('C18', 'ok-namedtemporaryfile', C, "            tmp_fd, tmp_filename = tempfile.mkstemp(prefix='g-ir-scanner-cache-',\n                                                    dir=self._directory)",
-    "            tmp_obj = tempfile.NamedTemporaryFile(prefix='g-ir-scanner-cache-', dir=self._directory, delete=False)\n            tmp_obj.close()\n            tmp_fd, tmp_filename = os.open(tmp_obj.name, os.O_WRONLY), tmp_obj.name", expect=0)
+    "            tmp_obj = tempfile.NamedTemporaryFile(prefix='g-ir-scanner-cache-', dir=self._directory, delete=False)\n            tmp_obj.close()\n            tmp_fd, tmp_filename = os.open(tmp_obj.name, os.O_WRONLY), tmp_obj.name", expect=1,
+    note='was expected quiet until purges could run concurrently with stores (mid-run upgrades): the temp file is closed and re-opened by name, '
+         'and a purge in between makes the store raise ENOENT and kill the scan - the D2 kind of defect; must be flagged now')
 
 
 def run_one(m, extra_env=None):
